@@ -714,6 +714,35 @@ fn c08_blocking() {
     });
 }
 
+/// the Arc twin of try_acquire under contention: with no permit available no form ever succeeds
+/// (not even transiently), and with one permit at most one of two racing calls does
+fn c03_try_arc() {
+    model(3, || {
+        let s = std::sync::Arc::new(Semaphore::new(0));
+        let s2 = s.clone();
+        let h = spawn(move || s2.try_acquire_arc().is_some());
+        let mine = s.try_acquire().is_some();
+        let theirs = h.join().unwrap();
+        assert!(!mine && !theirs, "a permit was handed out while none was available");
+        assert!(s.try_acquire().is_none(), "permits appeared from nowhere");
+    });
+    model(3, || {
+        let s = std::sync::Arc::new(Semaphore::new(1));
+        let s2 = s.clone();
+        let h = spawn(move || s2.try_acquire_arc());
+        let mine = s.try_acquire_arc();
+        let theirs = h.join().unwrap();
+        assert!(!(mine.is_some() && theirs.is_some()), "one permit, two guards");
+        assert!(mine.is_some() || theirs.is_some(), "the permit was lost");
+        assert!(s.try_acquire().is_none(), "permits appeared from nowhere");
+        drop(mine);
+        drop(theirs);
+        let g = s.try_acquire();
+        assert!(g.is_some(), "the permit did not come back");
+        assert!(s.try_acquire().is_none(), "more than one permit came back");
+    });
+}
+
 /// a thread parked in acquire_arc_blocking is first in line, an async waiter second; two permits
 /// are released in a row: both must get one (the blocking waiter has to pass the wake-up on)
 fn c07_blocking_two() {
@@ -902,6 +931,7 @@ const ALL: &[(&str, fn())] = &[
     ("c02_blocking", c02_blocking),
     ("c11_blocking", c11_blocking),
     ("c03_blocking", c03_blocking),
+    ("c03_try_arc", c03_try_arc),
     ("c09_blocking", c09_blocking),
     ("c08_blocking", c08_blocking),
     ("c06_upgrade_race", c06_upgrade_race),
